@@ -120,6 +120,7 @@ var ownSigs = map[string][]string{
 	"C03": {"c03w:", "address-not-seed-child"},
 	"C05": {"c05w:", "restart-failed"},
 	"C08": {"c08w:"},
+	"C13": {"c13w:"},
 }
 
 func (x *world) fail(sig, format string, a ...any) {
